@@ -97,8 +97,36 @@ def find(pid, seed, budget, repo, failure):
         return dict(found=False, evaluations=0, note='no finder for this property')
     binp, err = build(repo)
     if not binp:
+        # the finder crate links the tree being checked through its public API: a tree that changes that API (or
+        # does not compile) cannot be sampled - said aloud, never an alarm
+        print('NOTE: the sampled finder could not be built against this tree (no sampling done): %s' % err.strip().split('\n')[-1][:200])
         return dict(found=False, evaluations=0, error='finder build failed: ' + err)
-    return _run(binp, [pid, 'find', str(seed), str(budget)] + known_classes(pid), budget + 60)
+    r = _run(binp, [pid, 'find', str(seed), str(budget)] + known_classes(pid), budget + 60)
+    if r.get('hang'):
+        # a sample did not come back: run the same (deterministic) sequence again and keep the last input started
+        last = _last_started_input(binp, pid, seed, budget)
+        if last is not None:
+            print('NOTE: a sampled input did not terminate on this tree within the budget + 60 s; it is reported as the counterexample')
+            return dict(found=True, evaluations=None, input=last, detail=dict(what='the real code did not return for this input (no result within %d s)' % (budget + 60), hang=True))
+        print('NOTE: the sampled finder did not return within its budget + 60 s and the input could not be isolated')
+    return r
+
+
+def _last_started_input(binp, pid, seed, budget):
+    env = dict(os.environ, VERIF_FINDER_TRACE='1')
+    if _DUCK.get(_DUCK.get('repo', '/repo')):
+        env['VERIF_DUCK_BIN'] = _DUCK[_DUCK.get('repo', '/repo')]
+    try:
+        p = subprocess.Popen([binp, pid, 'find', str(seed), str(budget)] + known_classes(pid), env=env, stdout=subprocess.DEVNULL, stderr=subprocess.PIPE, text=True)
+        try:
+            _, err = p.communicate(timeout=budget + 30)
+        except subprocess.TimeoutExpired:
+            p.kill()
+            _, err = p.communicate()
+        lines = [l for l in (err or '').strip().split('\n') if l.startswith('{')]
+        return json.loads(lines[-1]) if lines else None
+    except Exception:
+        return None
 
 
 def replay(pid, path, repo):
